@@ -585,7 +585,7 @@ def gen_xcases(rng, tier):
         for _ in range(rng.randint(1, 4)):
             r = rng.random()
             data = bytes(rng.randrange(256) for _ in range(rng.randint(0, 14))).hex()
-            ops.append("all:" + data if r < 0.5 else "put:" + data if r < 0.65 else "desc" if r < 0.85 else "consts")
+            ops.append("all:" + data if r < 0.45 else "put:" + data if r < 0.6 else "desc" if r < 0.75 else "hooks" if r < 0.88 else "consts")
         if rng.random() < 0.5:
             ops.append("fin:" + bytes(rng.randrange(256) for _ in range(rng.randint(0, 6))).hex())
         acc = [rng.choice([0, 1, 1, 2, 2, 2, 3, 9]) for _ in range(rng.randint(0, 12))]
@@ -674,7 +674,7 @@ def run(tier, seed):
         "discharged": len(obligations) + (1 if table_ok and not bad_rows else 0) + (0 if bad else 1) + (0 if xbad else 1) + (0 if dpayload else 1),
         "associated_const_part": {"evaluations": len(xlines), "rule": "harness/mirrors/src/extras.rs: upstream::Chunked mirrored with `const CHUNK: usize = 2; const LIMIT: usize = 5;` "
                                   "(CHUNK has an upstream default 4, PAD keeps its default, LIMIT has none); random scripts of accepted counts driven through put_all(&mut self), "
-                                  "describe(&self), finish(self) and direct calls; compared with a plain implementor declaring the same constants (results, call log with arguments, leftovers)"},
+                                  "describe(&self), finish(self), direct calls and the no-op hooks (empty default bodies, &mut self / &self / Pin) of a second, non-mirrored trait; compared with a plain implementor declaring the same constants (results, call log with arguments, leftovers)"},
         "receiver_part": {"evaluations": dn, "rule": "C15 generator (trait D: every receiver kind, original and clones); mocked Termination::report: " + DP.report_case.__doc__},
         "checker_cmd": f"make -C /verif/coq ; coqc MirrorsCheck.v (regenerated) ; ./check C20 --tier {tier}",
         "trusted_base": C.TRUSTED_BASE + [
